@@ -569,6 +569,12 @@ func main() {
 	phase("limits")
 	for _, k := range gen.LimitKinds {
 		for _, n := range gen.LimitSizes(k) {
+			if (k == "array-literal" || k == "map-literal") && n >= tengo.StackSize/2 {
+				// a literal pushes all its elements before it is built: beyond the operand stack's capacity the run
+				// ends in the VM's stack exhaustion, a resource limit (C05/C06) and not a question of semantics;
+				// those sizes are for the structural checks (C02)
+				continue
+			}
 			exec(Case{Family: "limits", Op: k, Budget: n})
 		}
 	}
